@@ -12,6 +12,7 @@ import GoatModel.Bitcoin
 import GoatModel.Locking
 import GoatModel.LockingParams
 import GoatModel.Addr
+import GoatModel.Requests
 import GoatModel.Comet
 namespace Goat.World
 open Goat.Wire
@@ -396,6 +397,9 @@ def step (w : W) (o : Op) : W × String :=
           | some (o0, o1) => s!"=> ok addr={Addr.encodeSegwit "bcrt" 0 (o0.drop 2)} opret={toHex o1}"
           | none => "=> err"
         else "=> err")
+  | "req.decode" =>
+    -- goattypes.DecodeRequests on the typed request items of an execution payload (GoatModel.Requests)
+    (w, "=> " ++ Requests.execRaw (o.str "raw"))
   | "lock.validateparams" =>
     let p : LockingParams.RawParams :=
       { unlockDuration := o.int "unlock", exitingDuration := o.int "exit", downtimeJail := o.int "jail", maxValidators := o.int "maxvals",
